@@ -316,7 +316,9 @@ fn format_expression_internal(
                     })
                     .collect();
 
-                format_expression(ctx, expression, shape)
+                // Keep the context: the parentheses we removed may have wrapped further parentheses, which
+                // are only excess depending on where the whole expression sits [e.g. `((-X)) ^ Y`]
+                format_expression_internal(ctx, expression, context, shape)
                     .update_leading_trivia(FormatTriviaType::Append(leading_comments))
                     .update_trailing_trivia(FormatTriviaType::Append(trailing_comments))
             } else {
